@@ -313,61 +313,7 @@ func rulesC01(c *Ctx) {
 		c.Check(len(l.FieldWrites(l.Body, reading, false)) == 1, "readIncoming:reading=false", l, nil, "the closure clears the reading flag (lets updateInFlight close done)")
 	})
 
-	c.Rule("R-C01-5", "a response is matched to its call by id only; unknown ids are ignored; the entry is removed before the call completes", func() {
-		ri := c.Fn(pJ, "Connection", "readIncoming")
-		outgoing := c.Field(pJ, "inFlightState", "outgoingCalls")
-		retireObj := c.FnObj(pJ, "AsyncCall", "retire")
-		idField := c.Field(pJ, "Response", "ID")
-		n := 0
-		for _, s := range c.uifSites(ri) {
-			l := s.Lit
-			calls := l.CallsIn(l.Body, retireObj, false)
-			if len(calls) == 0 || len(l.FieldWrites(l.Body, c.Field(pJ, "inFlightState", "readErr"), false)) > 0 {
-				continue
-			}
-			n++
-			// enclosing type-switch clause must be *Response
-			cc, _ := ri.Enclosing(s.Call, func(n ast.Node) bool { _, ok := n.(*ast.CaseClause); return ok }).(*ast.CaseClause)
-			isResp := cc != nil && len(cc.List) == 1 && namedOf(ri.TypeOf(cc.List[0])) == c.P.LookupType(pJ, "Response")
-			c.Check(isResp, "response-arm:type", ri, s.Call, "completion closure sits in the *Response arm of the message type switch")
-			lg := l.Graph()
-			rc := calls[0]
-			rv := lg.VertexOf(rc)
-			// lookup: ac, ok := s.outgoingCalls[msg.ID]
-			var lookupKey ast.Expr
-			var okVar, acVar types.Object
-			for _, w := range Writes(l.Body, false) {
-				as, isAs := w.Stmt.(*ast.AssignStmt)
-				if !isAs || len(as.Lhs) != 2 || len(as.Rhs) != 1 {
-					continue
-				}
-				if m, k, ok := indexOf(as.Rhs[0]); ok && l.IsField(m, outgoing) {
-					lookupKey, acVar, okVar = k, l.ObjOf(as.Lhs[0]), l.ObjOf(as.Lhs[1])
-				}
-			}
-			if !c.Check(lookupKey != nil, "response-arm:lookup", l, nil, "comma-ok lookup in outgoingCalls") {
-				continue
-			}
-			c.Check(l.IsField(lookupKey, idField), "response-arm:key-is-response-id", l, lookupKey, "lookup key is the response's ID (%s)", exprStr(lookupKey))
-			guards := lg.GuardsAt(rv)
-			c.Check(hasAtom(guards, func(a Atom) bool { return a.Val && l.ObjOf(a.E) == okVar }), "response-arm:ok-guard", l, rc,
-				"retire only under the ok guard (an unknown or late id is a no-op, never a nil dereference)")
-			sel, _ := ast.Unparen(rc.Fun).(*ast.SelectorExpr)
-			c.Check(sel != nil && l.ObjOf(sel.X) == acVar, "response-arm:retire-looked-up-call", l, rc, "the call retired is the one found under that id")
-			c.Check(len(rc.Args) == 1 && l.ObjOf(rc.Args[0]) != nil && l.ObjOf(rc.Args[0]) == l.ObjOf(ast.Unparen(lookupKey).(*ast.SelectorExpr).X), "response-arm:payload", l, rc, "the response handed to the call is the message that carried the id")
-			// delete with same key dominates retire
-			delOK := false
-			for _, dc := range l.AllCalls(l.Body, false) {
-				if l.BuiltinName(dc) == "delete" && len(dc.Args) == 2 && l.IsField(dc.Args[0], outgoing) && sameExpr(dc.Args[1], lookupKey) {
-					if lg.Dominates(lg.VertexOf(dc), rv) && lg.VertexOf(dc) != rv {
-						delOK = true
-					}
-				}
-			}
-			c.Check(delOK, "response-arm:delete-before-retire", l, rc, "delete(outgoingCalls, sameKey) strictly dominates retire")
-		}
-		c.Pin("response arm", n, 1)
-	})
+	c.Rule("R-C01-5", "a response is matched to its call by id only; unknown ids are ignored; the entry is removed before the call completes", func() { responseArmRule(c) })
 
 	c.Rule("R-C01-6", "Retire is idempotent: it completes the call only while the table still maps the call's id to this very call", func() {
 		R := c.Fn(pJ, "Connection", "Retire")
@@ -527,3 +473,60 @@ func deepC01(c *Ctx) {
 		c.Pin("VTA callers of retire", len(callers), 4)
 	})
 }
+
+// responseArmRule is shared by R-C01-5 and R-C04-4 (a late response to an abandoned call is a no-op).
+func responseArmRule(c *Ctx) {
+		ri := c.Fn(pJ, "Connection", "readIncoming")
+		outgoing := c.Field(pJ, "inFlightState", "outgoingCalls")
+		retireObj := c.FnObj(pJ, "AsyncCall", "retire")
+		idField := c.Field(pJ, "Response", "ID")
+		n := 0
+		for _, s := range c.uifSites(ri) {
+			l := s.Lit
+			calls := l.CallsIn(l.Body, retireObj, false)
+			if len(calls) == 0 || len(l.FieldWrites(l.Body, c.Field(pJ, "inFlightState", "readErr"), false)) > 0 {
+				continue
+			}
+			n++
+			// enclosing type-switch clause must be *Response
+			cc, _ := ri.Enclosing(s.Call, func(n ast.Node) bool { _, ok := n.(*ast.CaseClause); return ok }).(*ast.CaseClause)
+			isResp := cc != nil && len(cc.List) == 1 && namedOf(ri.TypeOf(cc.List[0])) == c.P.LookupType(pJ, "Response")
+			c.Check(isResp, "response-arm:type", ri, s.Call, "completion closure sits in the *Response arm of the message type switch")
+			lg := l.Graph()
+			rc := calls[0]
+			rv := lg.VertexOf(rc)
+			// lookup: ac, ok := s.outgoingCalls[msg.ID]
+			var lookupKey ast.Expr
+			var okVar, acVar types.Object
+			for _, w := range Writes(l.Body, false) {
+				as, isAs := w.Stmt.(*ast.AssignStmt)
+				if !isAs || len(as.Lhs) != 2 || len(as.Rhs) != 1 {
+					continue
+				}
+				if m, k, ok := indexOf(as.Rhs[0]); ok && l.IsField(m, outgoing) {
+					lookupKey, acVar, okVar = k, l.ObjOf(as.Lhs[0]), l.ObjOf(as.Lhs[1])
+				}
+			}
+			if !c.Check(lookupKey != nil, "response-arm:lookup", l, nil, "comma-ok lookup in outgoingCalls") {
+				continue
+			}
+			c.Check(l.IsField(lookupKey, idField), "response-arm:key-is-response-id", l, lookupKey, "lookup key is the response's ID (%s)", exprStr(lookupKey))
+			guards := lg.GuardsAt(rv)
+			c.Check(hasAtom(guards, func(a Atom) bool { return a.Val && l.ObjOf(a.E) == okVar }), "response-arm:ok-guard", l, rc,
+				"retire only under the ok guard (an unknown or late id is a no-op, never a nil dereference)")
+			sel, _ := ast.Unparen(rc.Fun).(*ast.SelectorExpr)
+			c.Check(sel != nil && l.ObjOf(sel.X) == acVar, "response-arm:retire-looked-up-call", l, rc, "the call retired is the one found under that id")
+			c.Check(len(rc.Args) == 1 && l.ObjOf(rc.Args[0]) != nil && l.ObjOf(rc.Args[0]) == l.ObjOf(ast.Unparen(lookupKey).(*ast.SelectorExpr).X), "response-arm:payload", l, rc, "the response handed to the call is the message that carried the id")
+			// delete with same key dominates retire
+			delOK := false
+			for _, dc := range l.AllCalls(l.Body, false) {
+				if l.BuiltinName(dc) == "delete" && len(dc.Args) == 2 && l.IsField(dc.Args[0], outgoing) && sameExpr(dc.Args[1], lookupKey) {
+					if lg.Dominates(lg.VertexOf(dc), rv) && lg.VertexOf(dc) != rv {
+						delOK = true
+					}
+				}
+			}
+			c.Check(delOK, "response-arm:delete-before-retire", l, rc, "delete(outgoingCalls, sameKey) strictly dominates retire")
+		}
+		c.Pin("response arm", n, 1)
+	}
